@@ -209,6 +209,37 @@ def _kind_confusion(run: Run, prog: Program, model: Model, eqf: Optional[FuncInf
     marker_paths = run_eq(lambda i: ELL)
     marker_validates = any(any(e.kind == "accept" for e in p.events) for p in marker_paths)
     run.floor("EQ-FALLBACK", 2)
+    # VALUE-EQ-AGREE: two schemas are equal when their declared values compare equal with `!=` (Props.__eq__); "equal
+    # schemas give identical verdicts" then needs the validator to identify exactly the same values: its fixed-value row
+    # must be the plain comparison `value != declared` (floats: the documented tolerance) - a kind test added there
+    # separates schema.int(1) from schema.int(True) although they are ==
+    from ..vtable import extract
+    for hook in ("visit_int", "visit_str", "visit_bool", "visit_bytes"):
+        st_ = model.by_hook.get(hook)
+        if st_ is None or "value" not in st_.props:
+            continue
+        rows, _ = extract(prog, model, "Validator", hook, Config(("value",)))
+        vrows = [r for r in rows if r.error == "ValueValidationError"]
+        c = f"Validator.{hook}: fixed value compared with !="
+        site_ = model.visitors["Validator"].lookup(hook).loc
+        odd = []
+        for r in vrows:
+            t = r.term
+            plain = isinstance(t, Term) and t.op == "eq" and {a.key() for a in t.args if isinstance(a, V)} == {"value", "props.value"}
+            if not plain:
+                odd.append(r.pred_key[:80])
+            extra = [k for k, tt, b in r.all_facts if isinstance(tt, Term) and tt.op == "isinstance"
+                     and "props.value" in k]
+            if extra:
+                odd.append(extra[0][:80])
+        if not vrows:
+            run.undecided("VALUE-EQ-AGREE", c, site_, "no fixed-value row")
+        elif odd:
+            run.violated("VALUE-EQ-AGREE", c, site_,
+                         f"the fixed-value error is also raised on `{odd[0]}`: values that `!=` identifies get different verdicts",
+                         witness="schema.int(1) == schema.int(True), yet only one of them accepts 1")
+        else:
+            run.holds("VALUE-EQ-AGREE", c, site_, "ValueValidationError iff value != declared value", nontrivial=True)
 
     # (b) which props can hold a marker where the other side holds a schema?  derive from the declaration automaton
     ls = model.schemas["ListSchema"]
